@@ -326,6 +326,7 @@ class FileResponse(Response, FileResponseMixin):
         file_size: int,
         start_response: StartResponse,
     ) -> Generator[bytes, None, None]:
+        self.headers.pop("content-range", None)  # of an earlier answer of this object
         self.headers["content-type"] = str(self.content_type)
         self.headers["content-length"] = str(file_size)
         start_response(StatusStringMapping[200], self.list_headers(as_bytes=False))
@@ -367,6 +368,7 @@ class FileResponse(Response, FileResponseMixin):
         ranges: Sequence[Tuple[int, int]],
     ) -> Generator[bytes, None, None]:
         boundary = "".join(random_choices("abcdefghijklmnopqrstuvwxyz0123456789", k=13))
+        self.headers.pop("content-range", None)  # of an earlier answer of this object
         self.headers["content-type"] = f"multipart/byteranges; boundary={boundary}"
         content_length, generate_headers = self.generate_multipart(
             ranges, boundary, file_size, self.content_type
